@@ -64,6 +64,7 @@ def check(rep, an, tier):
         R.rule_count_denominator(rep, res, entry)
         R.rule_extremum_siblings(rep, res, entry)
         R.rule_fixed_column(rep, res, entry)
+        R.rule_min_vs_max_exact(rep, res, entry)
         CC.rank_of_extents(rep, res, entry)
         R.rule_dtype(rep, res, entry)
         R.rule_iterator_reuse(rep, res, entry)
